@@ -3,6 +3,7 @@ package executor
 import (
 	"bytes"
 	"context"
+	"fmt"
 	"io"
 	"os"
 	"strings"
@@ -110,13 +111,25 @@ func (e *DefaultExecutor) Execute(ctx context.Context, job *Job) ([]byte, error)
 
 	offset := e.buf.Len()
 	verifGate(ctx, "CmdStart", job, nil)
-	err = e.interp.Run(ctx, cmd)
+	err = e.run(ctx, cmd)
 	verifGate(ctx, "CmdEnd", job, err)
 	if err != nil {
 		return e.buf.Bytes()[offset:], err
 	}
 
 	return e.buf.Bytes()[offset:], nil
+}
+
+// run interprets the parsed command. The embedded shell panics on what it does not implement
+// (builtins such as umask or trap): that is a failure of the command, not of taskctl.
+func (e *DefaultExecutor) run(ctx context.Context, cmd *syntax.File) (err error) {
+	defer func() {
+		if r := recover(); r != nil {
+			err = fmt.Errorf("command cannot be executed: %v", r)
+		}
+	}()
+
+	return e.interp.Run(ctx, cmd)
 }
 
 // IsExitStatus checks if given `err` is an exit status
